@@ -567,10 +567,10 @@ func (g *lineGen) genVector(nitems int) {
 			p := hx.Pick(r, posPool)
 			if i == 0 {
 				if !g.mal || r.Chance(2, 3) {
-					for strings.HasPrefix(p, "-") || strings.HasPrefix(p, "@") {
+					for (strings.HasPrefix(p, "-") && p != "-") || strings.HasPrefix(p, "@") {
 						p = hx.Pick(r, posPool)
 					}
-				} else if strings.HasPrefix(p, "-") || strings.HasPrefix(p, "@") {
+				} else if (strings.HasPrefix(p, "-") && p != "-") || strings.HasPrefix(p, "@") {
 					g.risky = true
 				}
 			}
